@@ -91,6 +91,9 @@ class C16(Prop):
                 c['cfg']['signal_start_shift'] = rng.choice([3, 14, 40])       # signals built with a later start_dt of their own
                 c['stream'] += ':late-signal-start'
             c['session'] = True
+            if rng.random() < 0.25:
+                c['cfg']['signals_own_handler'] = True
+                c['stream'] += ':signals-on-their-own-handler'
             if c['cfg']['universe'][0] == 'dynamic' and rng.random() < 0.5:
                 c['mode'] = 'twice'
                 c['share_universe'] = True
@@ -148,7 +151,8 @@ class C16(Prop):
             if e is None:
                 want = []
             else:
-                want = [[t, rows[t].get(a)] for t in closes if e <= max(cfg['start'], t)]
+                k_ = 2.0 if cfg.get('signals_own_handler') else 1.0
+                want = [[t, (None if rows[t].get(a) is None else rows[t].get(a) * k_)] for t in closes if e <= max(cfg['start'], t)]
             if [x[0] for x in got] != [x[0] for x in want]:
                 j.failures.append(label + 'signal observations of %s at %s..., expected one per business-day close from its entry: %s...' % (
                     a, [x[0] for x in got][:4], [x[0] for x in want][:4]))
